@@ -76,7 +76,30 @@ def _coerce(v, sort):
     if sort.kind() == z3.Z3_UNINTERPRETED_SORT and isinstance(v0, Con) \
             and isinstance(v0.v, dict) and not v0.v and sort.name() == 'KwPack':
         return EMPTY_KW
+    if sort.kind() == z3.Z3_UNINTERPRETED_SORT and sort.name() == 'Type' and type(v0).__name__ == 'ClassV':
+        return _pr.class_term(None, v0)
+    if sort.kind() == z3.Z3_UNINTERPRETED_SORT and sort.name() in FNREF_SORTS and \
+            type(v0).__name__ == 'Closure' and getattr(v0.fn, '_qual', None):
+        # a module-level function used as a value: one constant per function
+        c = z3.Const('fn_' + v0.fn._qual.replace('.', '_'), sort)
+        FNREFS.setdefault(sort.name(), {})[v0.fn._qual] = c
+        return c
     return _orig_coerce(v, sort)
+
+
+FNREF_SORTS = set()      # sorts of callables that module-level functions may be stored as
+FNREFS = {}
+
+
+def fnref_axioms():
+    ax = []
+    for sn, d in FNREFS.items():
+        cs = list(d.values())
+        if len(cs) > 1:
+            ax.append(z3.Distinct(*cs))
+        for c in cs:
+            ax.append(c != none_of(c.sort()))
+    return ax
 
 
 sym.coerce_term = _coerce
